@@ -173,20 +173,39 @@ class KernelEval:
         return tuple(out)
 
 
+def _has_p1_cond(v):
+    if isinstance(v, PV):
+        fv = set()
+        d = getattr(v.cond, "lt", None)
+        if d is not None: fv |= d.fv()
+        e = getattr(v.cond, "eq", None)
+        if e is not None: fv |= e[1].fv() | e[2].fv()
+        return "Q.shape1" in fv or _has_p1_cond(v.hi) or _has_p1_cond(v.lo)
+    if isinstance(v, tuple): return any(_has_p1_cond(e) for e in v)
+    return False
+
+
 def check_kernel(ctx, KE, fam, mode, backend, outputs=OUT, rule="R3-statistics"):
     """compare the selected outputs of one kernel with the definition, in every K regime."""
     key = kernel_key(fam, mode, backend)
     node = KE.repo.get(key)
     where = KE.repo.where(key, node)
     ctx.analysed(key)
-    val, st = KE.evaluate(fam, mode, backend)
-    ref = reference(fam, mode)
-    kmax = cond_constants(val) + 1
+    val0, st = KE.evaluate(fam, mode, backend)
+    ref0 = reference(fam, mode)
+    kmax = cond_constants(val0) + 1
     worst = HOLDS
+    # the detrend basis comes from _build_Q(L, order), order in {1,2}: it has 2 or 3 columns
+    variants = [(None, val0, ref0)]
+    if fam == "poly" and _has_p1_cond(val0):
+        variants = []
+        for p1 in (2, 3):
+            mp = {"Q.shape1": X.const(p1)}
+            variants.append((p1, subst_val(val0, mp), {rg: tuple(x.subst(mp) for x in tup) for rg, tup in ref0.items()}))
     for name in outputs:
         oi = OUT.index(name)
         status = HOLDS; detail = ""; lhs = rhs = None
-        for k in range(0, kmax + 1):
+        for k, (p1, val, ref) in [(k, v) for k in range(0, kmax + 1) for v in variants]:
             leaf, und = leaf_for_K(val, k)
             if und:
                 status, detail = UNKNOWN, f"branch condition not on the segment count: {und[0]}"; break
@@ -205,8 +224,52 @@ def check_kernel(ctx, KE, fam, mode, backend, outputs=OUT, rule="R3-statistics")
                 status, detail = UNKNOWN, f"K={k}: non-scalar output {got!r}"[:300]; break
             stt, why = compare(gx, want, prepare=prepare_env, seed=ctx.seed)
             if stt != HOLDS:
-                status = stt; detail = f"{name} for K={k} segments differs from the windowed-DFT definition" + (f" ({why})" if why else "")
+                status = stt; detail = f"{name} for K={k} segments" + (f" and a {p1}-column basis" if p1 else "") + " differs from the windowed-DFT definition" + (f" ({why})" if why else "")
                 lhs, rhs = gx, want; break
         ctx.ob(f"{rule}[{name}]", key, status, detail, where, lhs=lhs, rhs=rhs)
         if status != HOLDS: worst = status
     return worst
+
+
+def check_launch_coverage(ctx, KE, fam, mode, rule="R7-launch-grid"):
+    """CUDA host wrappers: the launch grid covers every segment and the device guard is the segment count."""
+    from .symalg import NumEnv, evalx
+    key = kernel_key(fam, mode, "cuda")
+    node = KE.repo.get(key); where = KE.repo.where(key, node)
+    val, st = KE.evaluate(fam, mode, "cuda")
+    launches = [e for e in st.events if e[0] == "cuda-launch" and e[1].get("host") in (None, key)]
+    mine = [e for e in launches if e[1]["kernel"].startswith(key.replace("_cuda", "_cuda_kernel")[:len(key) + 7]) or True]
+    if not mine:
+        ctx.unknown(rule, key, "no kernel launch found in the host wrapper", where); return
+    K = X.var("starts.shape0")
+    for e in mine[-1:]:
+        f = e[1]
+        grid, blocks, threads = f["grid"], f["blocks"], f["threads"]
+        ok_guard = bool(f["guards"]) and all(g.eq(K) for g in f["guards"])
+        if not f["guards"]:
+            ctx.violated(rule, key, "device kernel writes its output slot without the guard `thread index < number of segments`", where); continue
+        if not ok_guard:
+            ctx.violated(rule, key, f"device guard bounds the thread index by {f['guards'][0]!r}, not by the number of segments", where); continue
+        T = threads
+        forms = []
+        try:
+            forms = [mk_fn("floor", [(K + T - 1) / T]), mk_fn("ceil", [K / T])]
+        except Unknown:
+            pass
+        if any(blocks.eq(fm) for fm in forms):
+            ctx.holds(rule, key, f"grid = ceil(K/{T!r})*{T!r} >= K", where); continue
+        # not the ceiling-division idiom: look for a segment count the grid does not cover
+        witness = None; failed = False
+        tv = T.as_int() or 256
+        for kval in (1, 2, tv - 1, tv, tv + 1, tv + tv // 4, 2 * tv - 1, 2 * tv + 1, 2 * tv + tv // 3, 5 * tv + 7, 1000 * tv + 1):
+            env = NumEnv(1); env.fixed["starts.shape0"] = float(kval)
+            try:
+                g = evalx(grid, env).real
+            except Exception:
+                failed = True; break
+            if g < kval: witness = (kval, g); break
+        if witness:
+            ctx.violated(rule, key, f"launch grid blocks*threads = {grid!r} covers only {witness[1]:.0f} threads for K={witness[0]} segments: "
+                         "the last segments are never computed and uninitialised device memory is averaged in", where, lhs=blocks)
+        else:
+            ctx.unknown(rule, key, f"launch grid {grid!r} is not the ceiling-division idiom and no uncovered K was found", where)
